@@ -337,6 +337,21 @@ def run(ctx):
 
     # ---- (d) end to end
     e2e = run_e2e(ctx, impl, model, bump, viol, mism, nontriv, samples) if model else {}
+    # A violation seen in an end-to-end scenario must recur when the scenario is run alone: under
+    # heavy machine load the library itself is flaky (GlobalIndex::into_index panics with "index
+    # still in use" after its 100 ms wait), which is not a C08 matter.
+    flaky = 0
+    for c in sorted({v[2] for v in viol if v[1] == "e2e"}):
+        whats = {v[0] for v in viol if v[1] == "e2e" and v[2] == c}
+        hits = 0
+        for _ in range(2):
+            v2, m2 = [], []
+            run_e2e(ctx, impl, model, lambda k, n=1: None, v2, m2, set(), [], only=[c])
+            if any(x[0] in whats for x in v2): hits += 1
+        if hits == 0:
+            flaky += len(whats)
+            viol[:] = [v for v in viol if not (v[1] == "e2e" and v[2] == c)]
+    e2e["e2e_unconfirmed_violations_dropped"] = flaky
     nev += e2e.get("evaluations", 0)
 
     cov.update({"evaluations": nev, "distinct_nontrivial": len(nontriv),
